@@ -100,7 +100,7 @@ def shape(t):
     if t[0] == "array":
         return ("array", tuple(shape(x) for x in t[1][:6]))
     if t[0] == "map":
-        return ("map", tuple(sorted((k[:4], shape(x)) for k, x in list(t[1].items())[:6])))
+        return ("map", tuple(sorted(((k[:4], shape(x)) for k, x in list(t[1].items())[:6]), key=repr)))
     return t[0]
 
 
